@@ -146,7 +146,14 @@ pub fn evaluate<const D: usize>(c: &Phys, ctx: &mut Ctx, stab: Option<f64>) -> R
     if !sym.f_nonzero() {
         fail!("bad-case", "F vanishes identically (no scale)");
     }
-    let (in_range, _) = ln_guard(&sym, &path.lnx0, D, nl, dod);
+    let (mut in_range, _) = ln_guard(&sym, &path.lnx0, D, nl, dod);
+    if c.classes.iter().any(|s| s.starts_with("mass-given:")) {
+        // edge data that contradicts the mass flags: the sampler's tropical quantities (and with them the size of
+        // its rescaling) follow the FLAGS, so the magnitude guard must hold for that view of the graph as well
+        let flag_masses: Vec<f64> = g.massive.iter().map(|&m| if m { 1.0 } else { 0.0 }).collect();
+        let sym_flags = Sym::new(g, &c.kin.inflow, &flag_masses);
+        in_range &= sym_flags.f_nonzero() && ln_guard(&sym_flags, &path.lnx0, D, nl, dod).0;
+    }
     let lambda_in_range = c.x[2 * ne - 2] >= crate::oracle::gamma::pq(dod, 1e-13).0.max(1e-300);
     // every fourth case: the same sampler object has been used before with OTHER edge data (some shifts exactly zero,
     // the others halved and displaced, masses scaled) and with the debug and metadata flags off; a sampler is a pure
